@@ -23,6 +23,7 @@ from sa import asdl
 from sa import core
 from sa import effects
 from sa import facts
+from sa import pat
 from sa import pycfg
 from sa import rules_order
 from sa import setalg
@@ -415,14 +416,40 @@ def check(model, rep, tier):
       (CONV + 'return_statements.py', 'ReturnStatementsTransformer', 'visit_For', 'return')):
     h = model.cls(rel, cname).methods[hname]
     g = pycfg.CFG(h.node)
-    used = [i for i, (k, a) in enumerate(g.nodes) if k == 'test' and core.norm(a) in (
-        'self.state[_Block].return_used', 'not break_used', 'break_used')]
+    # the "a jump was lowered in this loop" test: either the block state's
+    # return_used, or the second result of self._process_body(...)
+    used_names = set()
+    for a in ast.walk(h.node):
+      if isinstance(a, ast.Assign) and isinstance(a.targets[0], ast.Tuple) and \
+          len(a.targets[0].elts) == 2 and isinstance(a.targets[0].elts[1], ast.Name) \
+          and isinstance(a.value, ast.Call) and \
+          core.dotted(a.value.func) == 'self._process_body':
+        used_names.add(a.targets[0].elts[1].id)
+
+    def used_test(a):
+      neg = isinstance(a, ast.UnaryOp) and isinstance(a.op, ast.Not)
+      x = a.operand if neg else a
+      if core.norm(x) == 'self.state[_Block].return_used' or (
+          isinstance(x, ast.Name) and x.id in used_names):
+        return 'F' if neg else 'T'
+      return None
+
+    used = [i for i, (k, a) in enumerate(g.nodes) if k == 'test' and used_test(a)]
     ok = len(used) == 1
     facts = {}
     if ok:
-      pos_label = 'F' if core.norm(g.nodes[used[0]][1]).startswith('not ') else 'T'
+      pos_label = used_test(g.nodes[used[0]][1])
       start = [b for b, l in g.succ[used[0]] if l == pos_label]
       is_for = hname == 'visit_For'
+      hsites = [s for s in sites if s.fi is h]
+
+      def flag_loop_template(t):
+        for n in ast.walk(t.tree):
+          if isinstance(n, ast.While) and pat.match('not _F_ and _T_', n.test):
+            return True
+        b = t.tree.body
+        return len(b) == 1 and isinstance(b[0], ast.Expr) and bool(
+            pat.match('not _F_ and _T_', b[0].value))
 
       def installs(i):
         a = g.nodes[i][1]
@@ -430,12 +457,10 @@ def check(model, rep, tier):
           if is_for and core.dotted(c.func) == 'anno.setanno' and \
               'EXTRA_LOOP_TEST' in core.norm(c):
             return True
-        if not is_for and isinstance(a, ast.Assign):
-          txt = core.norm(a)
-          if txt.startswith('node.test = ') and 'not control_var and test' in txt:
-            return True
-          if 'while not var_name and test' in txt:
-            return True
+          if not is_for:
+            for s in hsites:
+              if s.call is c and any(flag_loop_template(t) for t in s.templates):
+                return True
         return False
 
       w = {i: 1 for i in range(len(g.nodes)) if installs(i)}
@@ -457,7 +482,16 @@ def check(model, rep, tier):
             'do_return / retval must be initialised at function entry')
   vc = model.func(CONV + 'continue_statements.py',
                   'ContinueCanonicalizationTransformer._visit_loop_body')
-  rep.check('nodes = control_var_init + nodes' in core.norm(vc.node), 'TPL-FLAG',
+  ok = False
+  for st in [x for x in sites if x.fi is vc]:
+    if not any(len(t.tree.body) == 1 and pat.match('_F_ = False', t.tree.body[0])
+               for t in st.templates):
+      continue
+    for asg in ast.walk(vc.node):
+      if isinstance(asg, ast.Assign) and asg.value is st.call and \
+          isinstance(asg.targets[0], ast.Name):
+        ok = ok or pat.has(vc.node, '_N_ = %s + _N_' % asg.targets[0].id)
+  rep.check(ok, 'TPL-FLAG',
             '%s:continue-flag-reset-each-iteration' % vc.site,
             'the continue flag must be reset at the top of every iteration',
             line=vc.node.lineno)
